@@ -213,6 +213,9 @@ type Session struct {
 	W     *Writer
 	HTTP  func(*plugin.HTTPServerArgs) error
 	Tr    http.RoundTripper
+	// RealSym leaves the Sym plug-in unset, so that pprof installs its own symbolizer (local
+	// symbolization through Obj, remote through Tr, demangling).
+	RealSym bool
 }
 
 // Result of a session.
@@ -278,7 +281,7 @@ func RunNoReset(s *Session) (res *Result) {
 	if s.W == nil {
 		s.W = &Writer{}
 	}
-	if s.Sym == nil {
+	if s.Sym == nil && !s.RealSym {
 		s.Sym = NopSym{}
 	}
 	if s.Obj == nil {
